@@ -1288,10 +1288,10 @@ pub fn check_c19_cfg(ctx: &mut Ctx, cfg: &Cfg, how: How) {
                     let c = via_packet;
                     if c.count() != *count || c.type_() != *cpt || c.body() != &body[..] || c.padding() != if *padding == 0 { None } else { Some(*padding) } || c.length() != tile.len() {
                         return Err(format!(
-                            "converted packet reports count {} type {} body {} padding {:?}",
+                            "converted packet misreports a field: count {} type {} body {} padding {:?}",
                             c.count(),
                             c.type_(),
-                            hex(c.body()),
+                            hex(&c.body()[..c.body().len().min(64)]),
                             c.padding()
                         ));
                     }
